@@ -315,7 +315,7 @@ theorem PQInv.preserved : Preserved PQInv where
       case pqReprio k v pri => exact PQInv.pqReprio _ _ _ _ h
       case recStart kind idx => exact PQInv.setRecording _ _ _ h
       case recStop kind idx => exact PQInv.setRecording _ _ _ h
-  resume w p f sig _ h := by
+  resume w p f sig _ _ h := by
     by_cases hm : (frameMask f).pqs = false
     · exact PQInv.of_eq ((resumeFrame_fp w p f sig).2.2.2.2.1 hm) h
     · cases f <;> simp [frameMask] at hm
